@@ -1182,19 +1182,17 @@ class VM:
             return UNDEFINED
 
         if isinstance(obj, JSObject):
-            # Check for getter first
-            getter = obj.get_getter(key_str)
-            if getter is not None:
-                return self._invoke_getter(getter, obj)
-            # Check own property
-            if obj.has(key_str):
-                return obj.get(key_str)
-            # Check prototype chain
-            proto = getattr(obj, "_prototype", None)
-            while proto is not None:
-                if isinstance(proto, JSObject) and proto.has(key_str):
-                    return proto.get(key_str)
-                proto = getattr(proto, "_prototype", None)
+            # Own property first, then the prototype chain; at each object an
+            # accessor runs with the receiver as this, a data property is returned
+            cur = obj
+            while cur is not None:
+                if key_str in cur._getters:
+                    return self._invoke_getter(cur._getters[key_str], obj)
+                if key_str in cur._setters:
+                    return UNDEFINED
+                if cur.has(key_str):
+                    return cur._properties[key_str]
+                cur = getattr(cur, "_prototype", None)
             # Built-in Object methods as fallback
             if key_str in ("toString", "hasOwnProperty"):
                 return self._make_object_method(obj, key_str)
@@ -2445,12 +2443,22 @@ class VM:
                 pass  # Not a number, allow as string property
             obj.set(key_str, value)
         elif isinstance(obj, JSObject):
-            # Check for setter
-            setter = obj.get_setter(key_str)
-            if setter is not None:
-                self._invoke_setter(setter, obj, value)
-            else:
-                obj.set(key_str, value)
+            # The nearest property of that name decides: a setter runs with the
+            # receiver as this, an accessor without setter refuses the write,
+            # a data property (or none) makes an own data property of the receiver
+            cur = obj
+            while cur is not None:
+                if key_str in cur._setters:
+                    self._invoke_setter(cur._setters[key_str], obj, value)
+                    return
+                if key_str in cur._getters:
+                    raise JSTypeError(
+                        f"Cannot set property {key_str} which has only a getter"
+                    )
+                if cur.has(key_str):
+                    break
+                cur = getattr(cur, "_prototype", None)
+            obj.set(key_str, value)
 
     def _delete_property(self, obj: JSValue, key: JSValue) -> bool:
         """Delete property from object."""
